@@ -12,7 +12,7 @@ path is left to the rule that replays it with its own abstract state.
 from __future__ import annotations
 
 import ast
-from typing import Callable, Iterable, List, Optional, Sequence, Tuple
+from typing import Callable, Dict, Iterable, List, Optional, Sequence, Tuple
 
 from . import AnalysisError
 from .model import Program, FuncInfo, ClassInfo, node_src, norm
@@ -108,6 +108,68 @@ def eval_order(expr: ast.AST) -> List[ast.AST]:
 
     visit(expr)
     return out
+
+
+_LIFTED: Dict[int, Tuple[ast.stmt, Optional[ast.If]]] = {}
+
+
+def _first_ifexp(e: ast.AST):
+    """The conditional expression evaluated first in *e* when nothing with an effect (a call, an await) is evaluated
+    before its test and it is not itself evaluated conditionally; 'blocked' when a call comes first; None when *e* has
+    no such expression."""
+    if isinstance(e, ast.IfExp):
+        return e
+    if isinstance(e, (ast.Lambda, ast.Constant, ast.Name)):
+        return None
+    if isinstance(e, (ast.ListComp, ast.SetComp, ast.DictComp, ast.GeneratorExp, ast.Yield, ast.YieldFrom)):
+        return "blocked"
+    if isinstance(e, ast.BoolOp):
+        r = _first_ifexp(e.values[0])
+        return r if r is not None else "blocked"
+    for c in ast.iter_child_nodes(e):
+        if isinstance(c, (ast.expr, ast.keyword)):
+            r = _first_ifexp(c)
+            if r is not None:
+                return r
+    if isinstance(e, (ast.Call, ast.Await)):
+        return "blocked"
+    return None
+
+
+def _replace_node(node, target, repl):
+    """*node* with *target* replaced by *repl*: only the spine is copied, every other subtree is shared."""
+    import copy
+    if node is target:
+        return repl
+    new = None
+    for field, value in ast.iter_fields(node):
+        if isinstance(value, ast.AST):
+            r = _replace_node(value, target, repl)
+            if r is not value:
+                new = new or copy.copy(node)
+                setattr(new, field, r)
+        elif isinstance(value, list):
+            lst = [_replace_node(v, target, repl) if isinstance(v, ast.AST) else v for v in value]
+            if any(a is not b for a, b in zip(lst, value)):
+                new = new or copy.copy(node)
+                setattr(new, field, lst)
+    return new or node
+
+
+def lift_ifexp(st: ast.stmt) -> Optional[ast.If]:
+    """``x = a if c else b`` (also as a returned value, an argument, ...) as ``if c: x = a`` / ``else: x = b``: the arms of a
+    conditional expression are alternatives, not a sequence.  Only when nothing with an effect precedes the test."""
+    hit = _LIFTED.get(id(st))
+    if hit is not None and hit[0] is st:
+        return hit[1]
+    res = None
+    if isinstance(st, (ast.Expr, ast.Assign, ast.AugAssign, ast.AnnAssign, ast.Return)) and st.value is not None:
+        ie = _first_ifexp(st.value)
+        if isinstance(ie, ast.IfExp):
+            res = ast.If(test=ie.test, body=[_replace_node(st, ie, ie.body)], orelse=[_replace_node(st, ie, ie.orelse)])
+            ast.copy_location(res, st)
+    _LIFTED[id(st)] = (st, res)
+    return res
 
 
 def cond_paths(test: ast.expr) -> List[Tuple[Tuple[Tuple[ast.expr, bool], ...], bool]]:
@@ -380,6 +442,9 @@ class Enumerator:
         self._count += 1
         if self._count > 4000000:
             raise AnalysisError("path enumeration budget exceeded in %s" % self.fn.qualname)
+        lifted = lift_ifexp(st)
+        if lifted is not None:
+            st = lifted
         if isinstance(st, (ast.Expr, ast.Assign, ast.AugAssign, ast.AnnAssign, ast.Delete, ast.Assert)):
             val = st.value if not isinstance(st, (ast.Delete, ast.Assert)) else (st.test if isinstance(st, ast.Assert) else None)
             for e2, oc in self._expr(val, evs, hctx):
